@@ -4,7 +4,8 @@ import vlib
 ID = "C18"
 LEAN_MODULES = ["NdInterp.Props.C18"]
 THEOREM_FILES = [("NdInterp/Props/C18.lean", "C18_")]
-RULE = ("`vharness custom <seed> <n>`: recording / failing user strategies (declared minimum 0..4) for Interp1D and Interp2D over static and "
+HARNESS_BINS = ["vharness_custom"]
+RULE = ("`vharness_custom <seed> <n>`: recording / failing user strategies (declared minimum 0..4) for Interp1D and Interp2D over static and "
         "dynamic data dims; valid and invalid builder inputs (tie, swap, NaN, decreasing, wrong length +-1, single element, too few points, "
         "missing axis); every entry point incl. the rank-1 fast path, query ranks 0..3; failure injected at every call index of a batch. "
         "Oracle (in the harness): strategy.build invoked iff the inputs are valid, exactly once, with the unmodified axis/axes and data; "
@@ -34,12 +35,12 @@ def extra(rng, tier):
     fails, summary, hist = [], None, {}
     for l in out:
         if l.startswith("FAIL"):
-            fails.append({"line": f"vharness custom {seed} {n}", "impl": l[:800],
+            fails.append({"line": f"vharness_custom {seed} {n}", "impl": l[:800],
                           "required": "custom strategies must only see validated, unmodified inputs, one call per query element in order, errors passed through"})
         elif l.startswith("SUMMARY"):
             summary = l
         elif l.startswith("HIST"):
             hist = {k: int(v) for k, v in (t.split("=", 1) for t in l.split()[1:])}
     if summary is None:
-        fails.append({"line": f"vharness custom {seed} {n}", "impl": "no SUMMARY", "required": "the run must complete"})
+        fails.append({"line": f"vharness_custom {seed} {n}", "impl": "no SUMMARY", "required": "the run must complete"})
     return {"nontrivial": n, "evaluations": n, "failures": fails[:20], "hist": hist, "notes": [summary or "", f"seed={seed}"]}
